@@ -13,15 +13,17 @@ COQ = os.path.join(VERIF, "coq")
 class Case:
     """One correspondence case: Coq literal + JSON-able description."""
 
-    __slots__ = ("coq", "desc", "obs", "nontrivial", "key", "kinds")
+    __slots__ = ("coq", "desc", "obs", "nontrivial", "key", "kinds", "prelude")
 
-    def __init__(self, coq, desc, obs=None, nontrivial=True, key=None, kinds=()):
+    def __init__(self, coq, desc, obs=None, nontrivial=True, key=None, kinds=(), prelude=()):
         self.coq = coq            # Gallina term of the property's case type
         self.desc = desc          # JSON-able input (enough to re-run: replay)
         self.obs = obs            # JSON-able implementation observation
         self.nontrivial = nontrivial
         self.key = key if key is not None else json.dumps(desc, sort_keys=True, default=str)
         self.kinds = tuple(kinds)  # labels for the input-distribution histogram
+        # shared Gallina definitions [(name, "Definition name : T := term.")], emitted once per shard
+        self.prelude = tuple(prelude)
 
 
 # ---------------------------------------------------------------- Gallina literals
